@@ -115,7 +115,7 @@ HARNESS_FLAGS = {
     "rx_driver": ["-std=c++17", "-O1", "-g", "-fsanitize=address,undefined", "-fno-sanitize-recover=all",
                   "-D_GLIBCXX_DEBUG", "-D" + GUARD, "-fno-access-control"],
     "sim_driver": ["-std=c++17", "-O1", "-g", "-fsanitize=address,undefined", "-fno-sanitize-recover=all",
-                   "-D_GLIBCXX_DEBUG", "-D" + GUARD, "-DASIO_STANDALONE", "-pthread"],
+                   "-D_GLIBCXX_DEBUG", "-D" + GUARD, "-DASIO_STANDALONE", "-fno-access-control", "-pthread"],
 }
 
 
